@@ -36,7 +36,7 @@ def check(ctx):
         f = bag.own_methods.get(meth)
         if f is None:
             raise AnchorMissing(f"Bag.{meth}")
-        cs = [c for c in calls(f, "reduction") if isinstance(c.func, ast.Attribute) and unparse(c.func.value) == "self"]
+        cs = [c for c in calls(f, "reduction") if isinstance(c.func, ast.Attribute) and eqv(c.func.value, "self")]
         ok = len(cs) == 1 and len(cs[0].args) >= 2 and unparse(cs[0].args[0]) == pp and unparse(cs[0].args[1]) == agg
         n += len(cs)
         got = (unparse(cs[0].args[0]), unparse(cs[0].args[1])) if cs and len(cs[0].args) >= 2 else None
@@ -62,7 +62,7 @@ def check(ctx):
     ctx.ob("ALG.reductions", ds, "Bag.distinct = reduction(chunk_distinct, merge_distinct) with the same key on both sides", ok)
     tk = bag.own_methods["topk"]
     cs = [c for c in calls(tk, "reduction")]
-    ok = len(cs) == 1 and unparse(cs[0].args[0]) == "func" and unparse(cs[0].args[1]) == "compose(func, toolz.concat)"
+    ok = len(cs) == 1 and eqv(cs[0].args[0], "func") and eqv(cs[0].args[1], "compose(func, toolz.concat)")
     ctx.ob("ALG.reductions", tk, "Bag.topk = reduction(topk_k, topk_k o concat)", ok)
     # ---------------- the tree
     rd = bag.own_methods["reduction"]
@@ -72,15 +72,15 @@ def check(ctx):
     loops = [l for l in walk_no_nested(rd) if isinstance(l, ast.While)]
     ok = len(loops) == 1 and Pat("k > split_every").match(loops[0].test) is not None
     inner = [l for l in ast.walk(loops[0]) if isinstance(l, ast.For)] if loops else []
-    ok = ok and len(inner) == 1 and Pat("enumerate(partition_all(split_every, range(k)))").match(inner[0].iter) is not None and unparse(inner[0].target) == "(i, inds)"
+    ok = ok and len(inner) == 1 and Pat("enumerate(partition_all(split_every, range(k)))").match(inner[0].iter) is not None and eqv(inner[0].target, "(i, inds)")
     ctx.ob("PAIR.tree.tiling", rd, "each level: for i, inds in enumerate(partition_all(split_every, range(k)))", ok, "" if ok else "a level does not tile the previous level's outputs: partial results are dropped or reused")
     if inner:
         st = [n_ for n_ in walk_no_nested(inner[0]) if isinstance(n_, ast.Assign) and isinstance(n_.targets[0], ast.Subscript)]
-        ok = len(st) == 1 and Pat("(empty_safe_aggregate, aggregate, [(b, j) for j in inds], False)").match(st[0].value) is not None and unparse(st[0].targets[0]) == "dsk[c, i]"
+        ok = len(st) == 1 and Pat("(empty_safe_aggregate, aggregate, [(b, j) for j in inds], False)").match(st[0].value) is not None and eqv(st[0].targets[0], "dsk[c, i]")
         ctx.ob("PAIR.tree.level", inner[0], "dsk[(c, i)] = (empty_safe_aggregate, aggregate, [(b, j) for j in inds], False)", ok)
-        ok = bool(find("k = i + 1", loops[0])) and bool(find("b = c", loops[0])) and bool(find("c = fmt + str(depth)", loops[0])) and any(isinstance(x, ast.AugAssign) and unparse(x.target) == "depth" for x in ast.walk(loops[0]))
+        ok = bool(find("k = i + 1", loops[0])) and bool(find("b = c", loops[0])) and bool(find("c = fmt + str(depth)", loops[0])) and any(isinstance(x, ast.AugAssign) and eqv(x.target, "depth") for x in ast.walk(loops[0]))
         ctx.ob("PAIR.tree.advance", loops[0], "k = i + 1; b = c; depth += 1 (next level reads this level's outputs)", ok)
-    fin = [n_ for n_ in walk_no_nested(rd) if isinstance(n_, ast.Assign) and unparse(n_.targets[0]) == "dsk[fmt, 0]"]
+    fin = [n_ for n_ in walk_no_nested(rd) if isinstance(n_, ast.Assign) and eqv(n_.targets[0], "dsk[fmt, 0]")]
     ok = len(fin) == 1 and Pat("(empty_safe_aggregate, aggregate, [(b, j) for j in range(k)], True)").match(fin[0].value) is not None
     ctx.ob("PAIR.tree.root", rd, "root aggregates all k outputs of the last level", ok)
     ok = bool(find("k = self.npartitions", rd)) and bool(find("b = a", rd))
@@ -93,25 +93,25 @@ def check(ctx):
     fb = model.klass(BAG, "Bag").own_methods["foldby"]
     tuples = [t for t in ast.walk(fb) if isinstance(t, ast.Tuple) and t.elts and isinstance(t.elts[0], ast.Name)]
     mw = [t for t in tuples if t.elts[0].id == "merge_with"]
-    rb_key = [t for t in tuples if t.elts[0].id == "reduceby" and len(t.elts) > 2 and unparse(t.elts[1]) == "key"]
-    rb_lvl = [t for t in tuples if t.elts[0].id == "reduceby" and len(t.elts) > 2 and unparse(t.elts[1]) == "0"]
+    rb_key = [t for t in tuples if t.elts[0].id == "reduceby" and len(t.elts) > 2 and eqv(t.elts[1], "key")]
+    rb_lvl = [t for t in tuples if t.elts[0].id == "reduceby" and len(t.elts) > 2 and eqv(t.elts[1], "0")]
     ctx.count("foldby_merge_sites", len(mw) + len(rb_lvl))
     ctx.floor("foldby_merge_sites", 4, "merge_with / reduceby(0, ...) task templates in Bag.foldby")
     for t in mw:
-        ok = unparse(t.elts[1]) == "(partial, reduce, combine)"
+        ok = eqv(t.elts[1], "(partial, reduce, combine)")
         ctx.ob("ALG.foldby.levels", t, "partial totals of a key are merged with `combine`", ok, "" if ok else f"merged with {unparse(t.elts[1])}: binop folds an ELEMENT into a total; applied to two totals it gives wrong per-key results whenever combine differs from binop")
     for t in rb_lvl:
-        ok = unparse(t.elts[2]) == "combine2"
+        ok = eqv(t.elts[2], "combine2")
         ctx.ob("ALG.foldby.levels", t, "with combine_initial: totals are merged with combine2 = foldby_combine2(combine)", ok)
     for t in rb_key:
-        ok = unparse(t.elts[2]) == "binop"
+        ok = eqv(t.elts[2], "binop")
         ctx.ob("ALG.foldby.leaves", t, "per partition: reduceby(key, binop, partition[, initial])", ok)
-    ok = bool(find("combine2 = partial(chunk.foldby_combine2, combine)", fb)) and any(unparse(n_.test) == "combine is None" and unparse(n_.body[0]) == "combine = binop" for n_ in walk_no_nested(fb) if isinstance(n_, ast.If))
+    ok = bool(find("combine2 = partial(chunk.foldby_combine2, combine)", fb)) and any(eqv(n_.test, "combine is None") and eqv(n_.body[0], "combine = binop") for n_ in walk_no_nested(fb) if isinstance(n_, ast.If))
     ctx.ob("ALG.foldby.default-combine", fb, "combine defaults to binop only when it is None; combine2 wraps combine", ok)
     # ---------------- groupby on disk: the per-block buffer is flushed every block, so it must be fresh every block
     pt = mod.func("partition")
     loops_ = [l for l in walk_no_nested(pt) if isinstance(l, ast.For)]
-    flush = [c for c in calls(pt, "append") if unparse(c.func.value) == "p"]
+    flush = [c for c in calls(pt, "append") if eqv(c.func.value, "p")]
     ok = len(flush) == 1 and isinstance(flush[0].args[0], ast.Name)
     if ok:
         buf = flush[0].args[0].id
@@ -121,7 +121,7 @@ def check(ctx):
     ctx.ob("PAIR.flush-fresh", pt, "partition(): the buffer appended to the on-disk store each block is created inside that block's iteration", ok, "" if ok else "the buffer outlives the iteration: every later block re-appends the earlier blocks, groups get duplicated elements")
     # ---------------- repartition(npartitions=) : the boundaries cover every input partition
     rfb = mod.func("_repartition_from_boundaries")
-    ok = any(isinstance(n, ast.If) and unparse(n.test) == "new_partitions_boundaries[0] > 0" and "insert(0, 0)" in unparse(n) for n in walk_no_nested(rfb)) and any(isinstance(n, ast.If) and unparse(n.test) == "new_partitions_boundaries[-1] < bag.npartitions" and "append(bag.npartitions)" in unparse(n) for n in walk_no_nested(rfb))
+    ok = any(isinstance(n, ast.If) and eqv(n.test, "new_partitions_boundaries[0] > 0") and "insert(0, 0)" in unparse(n) for n in walk_no_nested(rfb)) and any(isinstance(n, ast.If) and eqv(n.test, "new_partitions_boundaries[-1] < bag.npartitions") and "append(bag.npartitions)" in unparse(n) for n in walk_no_nested(rfb))
     ctx.ob("ABS.repartition.boundaries-cover", rfb, "boundaries are made to start at 0 and to end at bag.npartitions", ok, "" if ok else "float rounding of new*(old/new) can stop one short: the last input partition is silently dropped")
     ok = bool(find("num_new_partitions = len(new_partitions_boundaries) - 1", rfb))
     ctx.ob("ABS.repartition.count", rfb, "one output partition per consecutive boundary pair", ok)
